@@ -6,6 +6,7 @@ PREAMBLE = r'''
 use vstd::prelude::*;
 use vstd::arithmetic::power2::*;
 use vstd::bits::*;
+use vstd::arithmetic::div_mod::*;
 verus! {
 
 // ---------------------------------------------------------------- spec vocabulary (RING scheme, nside = n)
@@ -39,9 +40,10 @@ pub open spec fn ring_index(n: int, d0h: int, i: int, j: int) -> int {
 }
 
 // reduced declaration: only the fields the extracted functions read (the real struct has 13 fields)
-pub struct Layer { pub depth: u8, pub nside: u32, pub n_hash: u64 }
+pub struct Layer { pub depth: u8, pub nside: u32, pub n_hash: u64, pub nside_remainder_mask: u64 }
 pub open spec fn wf(s: Layer) -> bool {
   s.depth <= 29 && s.nside as nat == pow2(s.depth as nat) && s.n_hash as nat == 12 * pow2(s.depth as nat) * pow2(s.depth as nat)
+  && s.nside_remainder_mask as nat == pow2(s.depth as nat) - 1
 }
 pub uninterp spec fn decode_spec(s: Layer, hash: u64) -> HashParts;
 
@@ -89,6 +91,12 @@ impl Layer {
   fn decode_hash(&self, hash: u64) -> (p: HashParts)
     requires wf(*self), hash < self.n_hash,
     ensures p.d0h < 12, p.i < self.nside, p.j < self.nside, p == decode_spec(*self, hash),
+  { unimplemented!() }
+  // ASSUMED contract: the codec is the inverse of decode_hash on valid parts (Kani: build_hash_from_parts contract per z-order class, C04)
+  #[verifier::external_body]
+  fn build_hash_from_parts(&self, d0h: u8, i: u32, j: u32) -> (r: u64)
+    requires wf(*self), d0h < 12, i < self.nside, j < self.nside,
+    ensures r < self.n_hash, decode_spec(*self, r) == (HashParts { d0h: d0h, i: i, j: j }),
   { unimplemented!() }
 }
 
@@ -198,6 +206,36 @@ FUNCTIONS = [
              "  let x = (i_ring - self.nside as u64) as u64;",
              "  assert(x * (4 * n) <= 0x8000_0000 * 0x8000_0000) by (nonlinear_arith) requires x <= 0x8000_0000, 4 * n <= 0x8000_0000;",
              "  lemma_u64_shl_is_mul(x, (d + 2) as u64);",
+             "}"])]),
+    dict(name="Layer::div_by_nside_floor_u8", file="src/nested/mod.rs", sig="fn div_by_nside_floor_u8(&self, val: u64) -> u8 {", ret="r", wrap=("impl Layer {", "}"),
+         contract=["requires wf(*self), val < 8 * pow2(self.depth as nat),", "ensures r as int == val as int / pow2(self.depth as nat) as int, r < 8,"],
+         ghost=[dict(at="start", lines=[
+             "proof {",
+             "  lemma_n(self.depth as nat);",
+             "  lemma_u64_shr_is_div(val, self.depth as u64);",
+             "  let n = pow2(self.depth as nat) as int;",
+             "  assert(val as int / n < 8) by (nonlinear_arith) requires 0 <= val as int, (val as int) < 8 * n, n >= 1;",
+             "}"])]),
+    dict(name="Layer::modulo_nside", file="src/nested/mod.rs", sig="fn modulo_nside(&self, val: u64) -> u64 {", ret="r", wrap=("impl Layer {", "}"),
+         contract=["requires wf(*self),", "ensures r as int == val as int % pow2(self.depth as nat) as int,"],
+         ghost=[dict(at="start", lines=[
+             "proof {",
+             "  lemma_n(self.depth as nat);",
+             "  lemma_u64_low_bits_mask_is_mod(val, self.depth as nat);",
+             "  assert(low_bits_mask(self.depth as nat) == pow2(self.depth as nat) - 1) by { lemma_low_bits_mask_values(); reveal(low_bits_mask); }",
+             "}"])]),
+    dict(name="depth0_hash_unsafe", file="src/nested/mod.rs", sig="fn depth0_hash_unsafe(i: u8, j: u8) -> u8 {", ret="r",
+         contract=["requires i <= 4, j <= 4, 3 <= i + j <= 5,",
+                   "ensures r as int / 4 == 5 - (i + j), r as int % 4 == (if i + j == 5 { (i - 1) % 4 } else { i as int % 4 }), r < 12,"],
+         ghost=[dict(at="start", lines=[
+             "proof {",
+             "  let k: i8 = (5 - (i + j)) as i8;",
+             "  assert(k == 5_i8 - (i + j) as i8);",
+             "  assert(k << 2 == k * 4) by (bit_vector) requires 0 <= k <= 2;",
+             "  let km1: i8 = (k - 1) as i8;",
+             "  assert(km1 >> 7 == (if km1 == -1i8 { -1i8 } else { 0i8 })) by (bit_vector) requires -1 <= km1 <= 1;",
+             "  let m: i8 = ((i as i8) + (km1 >> 7)) as i8;",
+             "  assert(m & 3_i8 == (if m == -1i8 { 3i8 } else if m == 4i8 { 0i8 } else { m })) by (bit_vector) requires -1 <= m <= 4;",
              "}"])]),
     dict(name="Layer::to_ring", file="src/nested/mod.rs", sig="pub fn to_ring(&self, hash: u64) -> u64 {", ret="r", drop_pub=True, wrap=("impl Layer {", "}"),
          contract=["requires wf(*self), hash < self.n_hash,",
